@@ -11,7 +11,7 @@ CHECKS = {
             {"name": "c05-unit", "files": ["h_c04.go", "h_c14.go", "h_c05.go"],
              "harnesses": ["VerifH_C05_RemainingLength", "VerifH_C05_Pack", "VerifH_C05_Publish", "VerifH_C05_PublishBig",
                            "VerifH_C05_Subscribe", "VerifH_C05_Unsubscribe", "VerifH_C05_Acks", "VerifH_C05_Connect", "VerifH_C05_Inbound"],
-             "flags": {"quick": [], "thorough": [P(huge=1)]},
+             "flags": {"quick": [], "thorough": ["-xsolver=cvc5", P(huge=1)]},
              "reach": {"VerifH_C05_RemainingLength": ["encoded"], "VerifH_C05_Connect": ["connect-written"], "VerifH_C05_Publish": ["packed"]}},
         ],
         "assumptions": ["reference codec harness/refcodec.go written from the OASIS text is the oracle"],
@@ -20,14 +20,14 @@ CHECKS = {
         "groups": [
             {"name": "c06-unit", "files": ["h_c06.go"],
              "harnesses": ["VerifH_C06_Parsers", "VerifH_C06_ReadPacket", "VerifH_C06_Serve", "VerifH_C06_Connect"],
-             "flags": {"quick": ["-loop=16"], "thorough": ["-loop=16", P(maxlen=6, maxstream=12, maxbody=5)]},
+             "flags": {"quick": ["-loop=16"], "thorough": ["-xsolver=cvc5", "-loop=16", P(maxlen=6, maxstream=12, maxbody=5)]},
              "reach": {"VerifH_C06_Parsers": ["parsed", "publish-parsed"], "VerifH_C06_ReadPacket": ["returned"], "VerifH_C06_Serve": ["served"], "VerifH_C06_Connect": ["done"]}},
         ],
     },
     "C04": {
         "groups": [
             {"name": "c04-serve", "files": ["h_c04.go"], "harnesses": ["VerifH_C04_Inbound"],
-             "flags": {"quick": [P(maxpackets=3)], "thorough": [P(maxpackets=5)]},
+             "flags": {"quick": [P(maxpackets=3)], "thorough": ["-xsolver=cvc5", P(maxpackets=5)]},
              "reach": {"VerifH_C04_Inbound": ["served", "pubrel-known"]}},
         ],
         "assumptions": ["packets arrive on one connection; the handler returns"],
@@ -35,13 +35,16 @@ CHECKS = {
     "C08": {
         "groups": [
             {"name": "c08-applyto", "files": ["h_c08.go"], "harnesses": ["VerifH_C08_ApplyTo"],
-             "flags": {"quick": [P(maxcalls=3)], "thorough": [P(maxcalls=4)]},
+             "flags": {"quick": [P(maxcalls=3)], "thorough": ["-xsolver=cvc5", P(maxcalls=4)]},
              "reach": {"VerifH_C08_ApplyTo": ["applied"]}},
+            {"name": "u-resub", "files": ["h_resub.go"], "harnesses": ["VerifH_Resub_Pass"], "concurrent": True,
+             "flags": {"quick": [P(maxpending=3, maxsubs=2)], "thorough": [P(maxpending=4, maxsubs=3)]},
+             "reach": {"VerifH_Resub_Pass": ["pass-done", "interrupted"]}},
             {"name": "c08-sys", "files": ["h_sys_c08.go"], "harnesses": ["VerifH_SYS_C08"], "concurrent": True,
-             "flags": {"quick": [P(nreq=2, faults=1)], "thorough": [P(nreq=3, faults=1, withpub=1)]},
+             "flags": {"quick": [P(nreq=2, faults=1)], "thorough": [P(nreq=3, faults=1, withpub=1, latecut=0)]},
              "reach": {"VerifH_SYS_C08": ["quiescent"]}},
             {"name": "c08-sys-f2", "files": ["h_sys_c08.go"], "harnesses": ["VerifH_SYS_C08"], "concurrent": True, "thorough_only": True,
-             "flags": {"thorough": [P(nreq=2, faults=2)]},
+             "flags": {"thorough": [P(nreq=2, faults=2, latecut=0)]},
              "reach": {"VerifH_SYS_C08": ["quiescent"]}},
         ],
     },
@@ -49,7 +52,7 @@ CHECKS = {
         "groups": [
             {"name": "c14", "files": ["h_c14.go"], "harnesses": ["VerifH_C14_Filter", "VerifH_C14_Mux"],
              "flags": {"quick": [P(maxf=3, maxt=3, maxfilters=2, maxmf=2, maxmt=2)],
-                       "thorough": [P(maxf=5, maxt=4, maxfilters=3, maxmf=2, maxmt=3)]},
+                       "thorough": ["-xsolver=cvc5", P(maxf=5, maxt=4, maxfilters=3, maxmf=2, maxmt=3)]},
              "reach": {"VerifH_C14_Filter": ["matched", "rejected"], "VerifH_C14_Mux": ["served"]}},
         ],
         "assumptions": ["filter bytes over {/,+,#,a,b}, topic bytes over {/,a,b} (the code compares other bytes only for equality)"],
@@ -57,7 +60,7 @@ CHECKS = {
     "C15": {
         "groups": [
             {"name": "c15-seq", "files": ["h_c15.go"], "harnesses": ["VerifH_C15_NewID", "VerifH_C15_CycleLemma", "VerifH_C15_PresetID"],
-             "flags": {"quick": [P(calls=8)], "thorough": ["-loop=400", P(calls=16)]},
+             "flags": {"quick": [P(calls=8)], "thorough": ["-xsolver=cvc5", "-loop=400", P(calls=16)]},
              "reach": {"VerifH_C15_NewID": ["ids"], "VerifH_C15_CycleLemma": ["lemma"], "VerifH_C15_PresetID": ["written"]}},
             {"name": "c15-sys", "files": ["h_sys.go"], "harnesses": ["VerifH_SYS_C15"], "concurrent": True,
              "flags": {"quick": [P(nreq=2, faults=1)], "thorough": [P(nreq=3, faults=2)]},
@@ -87,24 +90,33 @@ CHECKS = {
     "C02": {
         "groups": [
             {"name": "c02-sys", "files": ["h_sys.go"], "harnesses": ["VerifH_SYS_C02"], "concurrent": True,
-             "flags": {"quick": [P(nreq=1, faults=1)], "thorough": [P(nreq=2, faults=2)]},
+             "flags": {"quick": [P(nreq=1, faults=1)], "thorough": [P(nreq=2, faults=2, withsub=1, always=1)]},
              "reach": {"VerifH_SYS_C02": ["quiescent", "pubcomp-read"]}},
-            {"name": "u-retry", "files": ["h_retry.go"], "harnesses": ["VerifH_Retry_Pass"],
-             "flags": {"quick": [P(maxqueue=4)], "thorough": [P(maxqueue=6)]},
-             "reach": {"VerifH_Retry_Pass": ["pass-done", "failed-entry"]}},
+            {"name": "u-resub", "files": ["h_resub.go"], "harnesses": ["VerifH_Resub_Pass"], "concurrent": True,
+             "flags": {"quick": [P(maxpending=3, maxsubs=2)], "thorough": [P(maxpending=4, maxsubs=3)]},
+             "reach": {"VerifH_Resub_Pass": ["pass-done", "interrupted"]}},
+            {"name": "u-retry", "files": ["h_retry.go"], "harnesses": ["VerifH_Retry_Pass", "VerifH_Retry_QueuedFail"], "concurrent": True,
+             "flags": {"quick": [P(maxqueue=4, maxqueued=3)], "thorough": [P(maxqueue=6, maxqueued=4)]},
+             "reach": {"VerifH_Retry_Pass": ["pass-done", "failed-entry"], "VerifH_Retry_QueuedFail": ["dead-pass-done"]}},
         ],
     },
     "C01": {
         "groups": [
             {"name": "c01-sys", "files": ["h_sys.go"], "harnesses": ["VerifH_SYS_C01"], "concurrent": True,
-             "flags": {"quick": [P(nreq=2, faults=1)], "thorough": [P(nreq=2, faults=2, connectfaults=1, dialfaults=1)]},
+             "flags": {"quick": [P(nreq=2, faults=1, sessionloss=1, always=1)], "thorough": [P(nreq=2, faults=2, connectfaults=1, dialfaults=1, sessionloss=1, always=1)]},
              "reach": {"VerifH_SYS_C01": ["quiescent"]}},
+            {"name": "c01-timeout", "files": ["h_sys.go", "h_sys_c18.go"], "harnesses": ["VerifH_SYS_C18"], "concurrent": True,
+             "flags": {"quick": [P(nreq=1, faults=1)], "thorough": [P(nreq=2, faults=2, cuts=1)]},
+             "reach": {"VerifH_SYS_C18": ["quiescent", "answer-dropped"]}},
             {"name": "u-handle", "files": ["h_c11.go", "h_handle.go"], "harnesses": ["VerifH_Handle_Chain"], "concurrent": True,
              "flags": {"quick": [P(maxdepth=2)], "thorough": [P(maxdepth=3)]},
              "reach": {"VerifH_Handle_Chain": ["completed", "retransmitted"]}},
-            {"name": "u-retry", "files": ["h_retry.go"], "harnesses": ["VerifH_Retry_Pass"],
-             "flags": {"quick": [P(maxqueue=4)], "thorough": [P(maxqueue=6)]},
-             "reach": {"VerifH_Retry_Pass": ["pass-done", "failed-entry"]}},
+            {"name": "u-resub", "files": ["h_resub.go"], "harnesses": ["VerifH_Resub_Pass"], "concurrent": True,
+             "flags": {"quick": [P(maxpending=3, maxsubs=2)], "thorough": [P(maxpending=4, maxsubs=3)]},
+             "reach": {"VerifH_Resub_Pass": ["pass-done", "interrupted"]}},
+            {"name": "u-retry", "files": ["h_retry.go"], "harnesses": ["VerifH_Retry_Pass", "VerifH_Retry_QueuedFail"], "concurrent": True,
+             "flags": {"quick": [P(maxqueue=4, maxqueued=3)], "thorough": [P(maxqueue=6, maxqueued=4)]},
+             "reach": {"VerifH_Retry_Pass": ["pass-done", "failed-entry"], "VerifH_Retry_QueuedFail": ["dead-pass-done"]}},
         ],
     },
     "C03": {
@@ -112,9 +124,12 @@ CHECKS = {
             {"name": "c03-sys", "files": ["h_sys.go"], "harnesses": ["VerifH_SYS_C03"], "concurrent": True,
              "flags": {"quick": [P(nreq=2, faults=1)], "thorough": [P(nreq=3, faults=2)]},
              "reach": {"VerifH_SYS_C03": ["quiescent"]}},
-            {"name": "u-retry", "files": ["h_retry.go"], "harnesses": ["VerifH_Retry_Pass"],
-             "flags": {"quick": [P(maxqueue=4)], "thorough": [P(maxqueue=6)]},
-             "reach": {"VerifH_Retry_Pass": ["pass-done", "failed-entry"]}},
+            {"name": "u-resub", "files": ["h_resub.go"], "harnesses": ["VerifH_Resub_Pass"], "concurrent": True,
+             "flags": {"quick": [P(maxpending=3, maxsubs=2)], "thorough": [P(maxpending=4, maxsubs=3)]},
+             "reach": {"VerifH_Resub_Pass": ["pass-done", "interrupted"]}},
+            {"name": "u-retry", "files": ["h_retry.go"], "harnesses": ["VerifH_Retry_Pass", "VerifH_Retry_QueuedFail"], "concurrent": True,
+             "flags": {"quick": [P(maxqueue=4, maxqueued=3)], "thorough": [P(maxqueue=6, maxqueued=4)]},
+             "reach": {"VerifH_Retry_Pass": ["pass-done", "failed-entry"], "VerifH_Retry_QueuedFail": ["dead-pass-done"]}},
         ],
     },
     "C12": {
@@ -125,9 +140,9 @@ CHECKS = {
             {"name": "u-handle", "files": ["h_c11.go", "h_handle.go"], "harnesses": ["VerifH_Handle_Chain"], "concurrent": True,
              "flags": {"quick": [P(maxdepth=2)], "thorough": [P(maxdepth=3)]},
              "reach": {"VerifH_Handle_Chain": ["completed", "retransmitted"]}},
-            {"name": "u-retry", "files": ["h_retry.go"], "harnesses": ["VerifH_Retry_Pass"],
-             "flags": {"quick": [P(maxqueue=4)], "thorough": [P(maxqueue=6)]},
-             "reach": {"VerifH_Retry_Pass": ["pass-done", "failed-entry"]}},
+            {"name": "u-retry", "files": ["h_retry.go"], "harnesses": ["VerifH_Retry_Pass", "VerifH_Retry_QueuedFail"], "concurrent": True,
+             "flags": {"quick": [P(maxqueue=4, maxqueued=3)], "thorough": [P(maxqueue=6, maxqueued=4)]},
+             "reach": {"VerifH_Retry_Pass": ["pass-done", "failed-entry"], "VerifH_Retry_QueuedFail": ["dead-pass-done"]}},
         ],
     },
     "C18": {
@@ -145,6 +160,9 @@ CHECKS = {
             {"name": "c09-sys", "files": ["h_sys_c09.go"], "harnesses": ["VerifH_SYS_C09"], "concurrent": True,
              "flags": {"quick": [P(faults=2)], "thorough": [P(faults=3)]},
              "reach": {"VerifH_SYS_C09": ["quiescent", "redial"]}},
+            {"name": "c09-keepalive", "files": ["h_sys_c16.go"], "harnesses": ["VerifH_SYS_C16"], "concurrent": True,
+             "flags": {"quick": ["-ticks=6", P(faults=0)], "thorough": ["-ticks=8", P(faults=1)]},
+             "reach": {"VerifH_SYS_C16": ["end", "silent-peer"]}},
         ],
     },
     "C17": {
@@ -184,8 +202,12 @@ CHECKS = {
         "groups": [
             {"name": "c10-base", "files": ["h_c10.go"], "concurrent": True,
              "harnesses": ["VerifH_C10_Publish", "VerifH_C10_Mixed", "VerifH_C10_Connect", "VerifH_C10_Close"],
-             "flags": {"quick": ["-race", "-delays=1"], "thorough": ["-race", "-delays=2"]},
+             "flags": {"quick": ["-race", "-delays=1"], "thorough": ["-race", "-delays=1"]},
              "reach": {"VerifH_C10_Publish": ["checked"], "VerifH_C10_Mixed": ["checked"], "VerifH_C10_Connect": ["end"], "VerifH_C10_Close": ["end"]}},
+            {"name": "c10-base-d2", "files": ["h_c10.go"], "concurrent": True, "thorough_only": True,
+             "harnesses": ["VerifH_C10_Connect", "VerifH_C10_Close"],
+             "flags": {"thorough": ["-race", "-delays=2"]},
+             "reach": {"VerifH_C10_Connect": ["end"], "VerifH_C10_Close": ["end"]}},
             {"name": "c10-retry", "files": ["h_c10.go"], "concurrent": True,
              "harnesses": ["VerifH_C10_Retry"],
              "flags": {"quick": ["-race", "-delays=1", P(faults=1)], "thorough": ["-race", "-delays=1", P(faults=2)]},
@@ -197,6 +219,9 @@ CHECKS = {
             {"name": "c11-base", "files": ["h_c11.go"], "harnesses": ["VerifH_C11_Blocking"], "concurrent": True,
              "flags": {"quick": ["-delays=1"], "thorough": ["-delays=2"]},
              "reach": {"VerifH_C11_Blocking": ["after-cause", "connection-ended", "final"]}},
+            {"name": "c11-reconnect-any", "files": ["h_sys_c09.go"], "harnesses": ["VerifH_SYS_C09"], "concurrent": True,
+             "flags": {"quick": ["-delays=1", P(faults=0, stopany=1)], "thorough": ["-delays=1", P(faults=1, stopany=1)]},
+             "reach": {"VerifH_SYS_C09": ["quiescent"]}},
             {"name": "c11-reconnect", "files": ["h_sys_c09.go"], "harnesses": ["VerifH_SYS_C09"], "concurrent": True,
              "flags": {"quick": [P(faults=1)], "thorough": [P(faults=2)]},
              "reach": {"VerifH_SYS_C09": ["quiescent"]}},
@@ -204,8 +229,11 @@ CHECKS = {
     },
     "C07": {
         "groups": [
+            {"name": "c07-acks-d1", "files": ["h_c11.go", "h_c07.go"], "harnesses": ["VerifH_C07_Acks", "VerifH_C07_Prompt"], "concurrent": True, "thorough_only": True,
+             "flags": {"thorough": ["-delays=1", P(callers=2, acks=1)]},
+             "reach": {"VerifH_C07_Acks": ["end"], "VerifH_C07_Prompt": ["end"]}},
             {"name": "c07-acks", "files": ["h_c11.go", "h_c07.go"], "harnesses": ["VerifH_C07_Acks", "VerifH_C07_SubAck", "VerifH_C07_Prompt"], "concurrent": True,
-             "flags": {"quick": [P(callers=2, acks=2)], "thorough": ["-delays=1", P(callers=2, acks=3)]},
+             "flags": {"quick": [P(callers=2, acks=2)], "thorough": [P(callers=2, acks=3)]},
              "reach": {"VerifH_C07_Acks": ["end", "completed"], "VerifH_C07_SubAck": ["subscribed"], "VerifH_C07_Prompt": ["end"]}},
         ],
     },
